@@ -127,6 +127,31 @@ Theorem C06_nidbug_refuted :
 Proof. exact nidbug_refuted. Qed.
 Print Assumptions C06_nidbug_refuted.
 
+(* what is not signed never matters: the predicate is invariant under any change of
+   the unsigned attachments (NTS vote bases, proof parts) of either message ... *)
+Theorem C06_unsigned_invariant : forall a b e1 c1 e2 c2,
+  is_conflict (with_unsigned e1 c1 a) (with_unsigned e2 c2 b) = is_conflict a b.
+Proof. exact conflict_unsigned_invariant. Qed.
+Print Assumptions C06_unsigned_invariant.
+
+Theorem C06_same_signed_same_verdict : forall a a' b b',
+  same_signed a a' -> same_signed b b' -> is_conflict a b = is_conflict a' b'.
+Proof. exact conflict_same_signed. Qed.
+Print Assumptions C06_same_signed_same_verdict.
+
+(* ... so ONE signed message and a copy with rewritten unsigned parts is never evidence *)
+Theorem C06_rewritten_copy_is_not_evidence : forall a a',
+  same_signed a a' -> is_conflict a a' = false.
+Proof. exact conflict_rewritten_copy. Qed.
+Print Assumptions C06_rewritten_copy_is_not_evidence.
+
+(* the variant that compares votes by a digest covering unsigned parts violates this *)
+Theorem C06_extbug_refuted :
+  same_signed extbug_a extbug_b /\
+  vote_conflict_extbug extbug_a extbug_b = true /\ is_conflict extbug_a extbug_b = false.
+Proof. exact extbug_refuted. Qed.
+Print Assumptions C06_extbug_refuted.
+
 (* ---- kernel link (Link_C06.v).  matchNID is re-generated from
    consensus/doublesigndata.go on every run (tools/go2coq); match_nid of the model,
    used in all theorems above, IS the decision of the current Go code ---- *)
